@@ -35,6 +35,7 @@ type ScenInit struct {
 	IOCells [][2]int        `json:"iocells"`
 	Pend    []int           `json:"pend"`
 	Img     []int           `json:"img"`
+	HCfg    *int            `json:"hcfg"` // bit 0: RETN handler installed, bit 1: RETI handler installed (default both)
 }
 
 type Scenario struct {
@@ -76,6 +77,9 @@ func (si *ScenInit) Spec() *InitSpec {
 	is.IO = IODesc{Kind: si.IO[0].(string), Seed: toInt(si.IO[1]), Len: toInt(si.IO[2])}
 	if is.Pend == nil {
 		is.Pend = []int{}
+	}
+	if si.HCfg != nil {
+		is.NoHN, is.NoHI = *si.HCfg&1 == 0, *si.HCfg&2 == 0
 	}
 	return is
 }
@@ -126,8 +130,7 @@ func (m *Machine) Rebuild() {
 			cpu.BreakPoints[k] = struct{}{}
 		}
 	}
-	cpu.RETNHandler = retnH{m.H}
-	cpu.RETIHandler = retiH{m.H}
+	m.installHandlers(cpu)
 	m.CPU = cpu
 }
 
